@@ -72,6 +72,16 @@ CHECKS["C17"] = dict(engine="E5", technique="runtime monitoring: real serve proc
              text="Exploration of register/spawn/define histories that reuse names across three contexts, followed by 1-2 restarts; the sets of (context, name, id) answering a probe before and after must be equal, generators whose latest spawn succeeded must restart with the same id, and nothing written after the restart may answer a pre-restart trigger or call.",
              note=E5_NOTE, ref="§7 E5, §8 C17")
 
+CHECKS["C06"] = dict(engine="E5", technique="runtime monitoring: context-tagged traffic on a real serve process; every scoped observation (Store API, followers, HTTP routes incl. head-follow, handler/command/generator outputs, .cat/.head inside scripts) checked for foreign tags",
+             text="Exploration with five contexts (zero, appended, numerically adjacent ids registered by import), identical topics everywhere and a tag in every frame, so that a leak is visible in the observation itself; covers history and live delivery, all read options, both HTTP renderings, head-follow, handler dispatch, script-level visibility and forced output contexts.",
+             note=E5_NOTE, ref="§8 C06")
+CHECKS["C10"] = dict(engine="E5", technique="runtime monitoring: entry-point x byte-string matrix with an independent SHA-256; immediate content reads by followers and a handler racing concurrent HTTP writers under append jitter; SIGKILL + reopen content audit",
+             text="Exploration of twelve content entry points with boundary-sized byte strings and texts, checking reported hashes against the sha2 crate, byte-exact read-back (also after restart), content availability at the moment of delivery, and content presence for every frame visible after a process kill.",
+             note=E5_NOTE + " Expected hashes are computed by the harness, not by ssri/cacache.", ref="§8 C10")
+CHECKS["C20"] = dict(engine="E1", technique="runtime monitoring: export of an E1-generated store, permuted/duplicated import through the real HTTP API, full observational-equality sweep (incl. raw partitions and usable-context probes) between source and target",
+             text="Exploration of source histories and import orders; equality is checked on everything the other properties observe (both read paths, get, heads, raw index partitions, CAS bytes, accept/reject of appends per context id), plus idempotence of re-import and whole rejection of NUL-topic frames.",
+             note=E1_NOTE, ref="§8 C20")
+
 NOT_YET = {
 }
 
